@@ -51,6 +51,12 @@ FUNCTIONS = [
     ('isotp/tpsock/__init__.py', 'socket', 'set_fc_opts'),
     ('isotp/tpsock/__init__.py', 'socket', 'set_ll_opts'),
     ('isotp/tpsock/__init__.py', 'socket', 'bind'),
+    ('isotp/tpsock/__init__.py', 'socket', 'close'),
+    ('isotp/tpsock/__init__.py', 'socket', 'send'),
+    ('isotp/tpsock/__init__.py', 'socket', 'recv'),
+    ('isotp/tpsock/__init__.py', 'socket', 'get_opts'),
+    ('isotp/tpsock/__init__.py', 'socket', 'get_fc_opts'),
+    ('isotp/tpsock/__init__.py', 'socket', 'get_ll_opts'),
     ('isotp/protocol.py', 'TransportLayerLogic', '_process_rx'),
     ('isotp/protocol.py', 'TransportLayerLogic', '_check_timeouts_rx'),
     ('isotp/protocol.py', 'TransportLayerLogic', '_stop_receiving'),
